@@ -2,8 +2,8 @@
 
 Real code exercised (in-process, unmodified): saml2.assertion.Policy.filter / Policy.restrict /
 Assertion.apply_policy (with filter_on_attributes, filter_attribute_value_assertions, compile,
-Policy.get, get_entity_categories underneath), Server.create_authn_response and
-Server.create_attribute_response of a scenario IdP/AA whose metadata is written by the harness's
+Policy.get, get_entity_categories underneath), Server.setup_assertion, Server.create_authn_response
+and Server.create_attribute_response of a scenario IdP/AA whose metadata is written by the harness's
 own XML writer (scenario.entity_xml: RequestedAttributes, entity-category / registration-info /
 subject-id extensions).  The model's input is the harness's own specification of that metadata
 and policy, never something read back from pysaml2.
@@ -28,14 +28,16 @@ AUDIT = "PysamlModel/Audit/C10.lean"
 DRIVER = "Drivers/C10.lean"
 GEN = [_ec_translate.generate]
 CORRESPONDENCE = ("Drivers/C10.lean vs Policy.filter / Policy.restrict / Assertion.apply_policy / "
-                  "Server.create_authn_response / Server.create_attribute_response")
+                  "Server.setup_assertion / Server.create_authn_response / Server.create_attribute_response")
 RULE = ("random identities (str- and list-valued attributes, case variants, repeated values) x policy "
         "configurations (requester / registration-authority / default / \"\" sections, None and {} sections, "
         "attribute_restrictions with None / [] / regex lists and case-variant keys, fail_on_missing_requested, "
         "entity_categories from the bundled modules and one harness-injected module with ONLY_REQUIRED / "
         "NO_AGGREGATION / tuple keys) x requester metadata (required/optional RequestedAttributes in uri / basic / "
         "unspecified / absent name formats, with and without FriendlyName and values, entity-category, "
-        "registration-info and subject-id extensions, unknown requester); non-trivial = the case reaches a "
+        "registration-info and subject-id extensions, unknown requester), each through Policy.filter / restrict / "
+        "apply_policy / setup_assertion / create_authn_response / create_attribute_response; plus one sweep over "
+        "every RELEASE item of every bundled entity-category module; non-trivial = the case reaches a "
         "filter (entity categories, requested attributes or attribute restrictions in effect); distinct = "
         "distinct case JSON")
 EXHAUSTIVE = False
@@ -52,7 +54,9 @@ TRUSTED = [
     "Response level: the attribute statement is read back with xml.etree (FriendlyName, else Name; values "
     "concatenated per name), from_local/do_ava are exercised, not modelled; list- and str-valued attributes are "
     "indistinguishable on the wire and compared as value lists",
-    "translator harness/translate/entity_categories.py (imports saml2.entity_category.* of the current tree)",
+    "translator harness/translate/entity_categories.py (imports saml2.entity_category.* of the current tree); the "
+    "tables ARE the release policy: apart from the two pinned facts (Code-of-Conduct items are ONLY_REQUIRED, the "
+    "always-released items list nothing but eduPersonTargetedID) a table edit changes model and implementation alike",
 ]
 ASSUMPTIONS = [
     "identity values are str or list of str (no None / int / nested values); regular expressions in "
